@@ -2,7 +2,7 @@
 """C01 — compose then parse returns the same message and consumes every byte."""
 from harness import core, clsrun, clsops
 
-LEAN_MODULES = ['CpProps.C01', 'CpProps.C01Hello', 'CpProps.C01Ssl2']
+LEAN_MODULES = ['CpProps.C01', 'CpProps.C01Hello', 'CpProps.C01Ssl2', 'CpProps.C01Ext']
 RULE = ('objects of every modelled class are built with the library constructors by type-directed generators (all enum '
         'members, unknown/GREASE code points, empty and maximal vectors, optional parts absent/present, boundary integers), '
         'composed, and the encodings are used as they are, with trailing bytes, concatenated, truncated at many offsets, '
